@@ -21,8 +21,10 @@
     if that last PDU is an End of Data, the recorded serial is its serial
     (`end-of-data-not-processed`) and the VRPs shown for the session are exactly the fold's
     (`installed-differs-from-fold`, `installed-duplicate-vrp`).
-  * a session fed only well-formed PDUs, none of them an Error Report (after which the client
-    may give up, RFC 8210 §10), must still be up (`session-dropped-on-well-formed-stream`);
+  * a session fed only well-formed PDUs must still be up (`session-dropped-on-well-formed-stream`),
+    except that it may end on receiving a complete Error Report with a fatal code (any but 2,
+    RFC 8210 §10) - at that PDU, not some PDUs later: once a snapshot has shown it up with the
+    report complete, that report excuses nothing;
     a session that has ended (EOF, cancellation, or the client gave up) is reported as ended
     and has left no VRP (`session-did-not-end`, `vrps-remain-after-session-end`).
 -/
@@ -91,15 +93,19 @@ def seenOf : List Pdu → Nat
   | [] => 0
   | p :: ps => cntPdu p + seenOf ps
 
-/-- some byte of an Error Report has been delivered: the client may give the session up
-    (RFC 8210 §10: most error codes are fatal) -/
-def errTouched : List Pdu → Nat → Bool
-  | [], _ => false
-  | p :: ps, n =>
-      if n = 0 then false
-      else match p with
-        | .err .. => true
-        | _ => if n < pduLen p then false else errTouched ps (n - pduLen p)
+/-- an Error Report after which the client may give the session up: every code but 2,
+    "No Data Available" (RFC 8210 §10: the router keeps the session and retries) -/
+def fatalErr : Pdu → Bool
+  | .err _ code _ => code ≠ 2
+  | _ => false
+
+/-- some COMPLETELY delivered fatal Error Report excuses a session end: the `j`-th completed PDU is
+    one, and the session has never been seen up at a snapshot at which that PDU (`j + 1` PDUs) was
+    complete.  `done` = the completed conforming PDUs, `j` = index of its head, `upSeen` = the
+    largest number of completed PDUs at a snapshot that showed the session up. -/
+def excused : List Pdu → Nat → Nat → Bool
+  | [], _, _ => false
+  | p :: ps, j, upSeen => (fatalErr p && upSeen ≤ j) || excused ps (j + 1) upSeen
 
 /-- split a stream at `delivered` bytes: the whole conforming PDUs before that point, the number
     of further bytes delivered, and whether some byte of a non-conforming PDU was delivered -/
@@ -120,6 +126,7 @@ structure SSlot where
   started : Bool := false
   closed : Bool := false
   delivered : Nat := 0
+  upSeen : Nat := 0     -- most completed PDUs at a snapshot that showed this session up
   deriving Repr
 
 def total : List Pdu → Nat
@@ -174,16 +181,23 @@ def checkSlot (s : Snap) (x : SSlot) : Option String :=
             else if !sameSet (shown s ⟨x.cache, x.sid⟩) f.installed then some "installed-differs-from-fold"
             else none
 
-/-- a session that gave up although everything delivered was well-formed and no Error Report came -/
+/-- a session that gave up although everything delivered was well-formed, unless it did so on
+    receiving a fatal Error Report (and not some PDUs later) -/
 def checkDropped (s : Snap) (x : SSlot) : Option String :=
   if x.started && !x.closed && s.done.contains x.sid && !(split x.pdus x.delivered).2.2
-     && !errTouched x.pdus x.delivered
+     && !excused (split x.pdus x.delivered).1 0 x.upSeen
   then some "session-dropped-on-well-formed-stream" else none
 
 /-- every row belongs to a started session of the script -/
 def checkRows (σ : List SSlot) (s : Snap) : Option String :=
   if s.roas.all (fun r => σ.any (fun x => x.sid = r.1 && x.started && x.cache = r.2.1)) then none
   else some "vrp-of-unknown-session"
+
+/-- remember, for every session a snapshot shows up, how many PDUs were complete then -/
+def markUp (s : Snap) (σ : List SSlot) : List SSlot :=
+  σ.map fun x =>
+    if x.started && !ended s x && !(split x.pdus x.delivered).2.2
+    then { x with upSeen := max x.upSeen (split x.pdus x.delivered).1.length } else x
 
 def firstSome : List (Option String) → Option String
   | [] => none
@@ -207,7 +221,7 @@ def checkFrom : Nat → List SSlot → List Step → List Snap → Verdict
       | s :: obs' =>
           match checkSnap σ s with
           | some c => .fail i c
-          | none => checkFrom (i + 1) σ rest obs'
+          | none => checkFrom (i + 1) (markUp s σ) rest obs'
   | i, σ, .start sid :: rest, obs => checkFrom (i + 1) (sStep σ (.start sid)) rest obs
   | i, σ, .send sid n :: rest, obs => checkFrom (i + 1) (sStep σ (.send sid n)) rest obs
   | i, σ, .soft sid :: rest, obs => checkFrom (i + 1) (sStep σ (.soft sid)) rest obs
